@@ -62,8 +62,8 @@ var deny = map[string][]string{
 }
 
 type stats struct {
-	files, changed                                                    int
-	mutex, netCalls, tlsCalls, wsDialers, dnsServe, resolv, fileReads int
+	files, changed                                                                 int
+	mutex, netCalls, tlsCalls, wsDialers, dnsServe, resolv, fileReads, globalChans int
 }
 
 var st stats
@@ -136,8 +136,8 @@ func main() {
 		}
 		os.Exit(2)
 	}
-	fmt.Printf("simify: files=%d changed=%d mutex=%d net=%d tls=%d wsdialer=%d dnsserve=%d resolvconf=%d filereads=%d\n",
-		st.files, st.changed, st.mutex, st.netCalls, st.tlsCalls, st.wsDialers, st.dnsServe, st.resolv, st.fileReads)
+	fmt.Printf("simify: files=%d changed=%d mutex=%d net=%d tls=%d wsdialer=%d dnsserve=%d resolvconf=%d filereads=%d globalchans=%d\n",
+		st.files, st.changed, st.mutex, st.netCalls, st.tlsCalls, st.wsDialers, st.dnsServe, st.resolv, st.fileReads, st.globalChans)
 }
 
 func die(format string, args ...interface{}) {
@@ -290,6 +290,49 @@ func rewriteFile(path string) {
 		}
 		return true
 	})
+
+	// Package-level channels are created when the package is initialised, outside any synctest bubble, and
+	// a goroutine blocked on such a channel is not durably blocked: the simulated clock would stand still
+	// for ever. Each one is re-created inside the bubble at the start of every run (simrt.ReinitGlobals).
+	var reinit []ast.Stmt
+	for _, decl := range f.Decls {
+		gd, ok := decl.(*ast.GenDecl)
+		if !ok || gd.Tok != token.VAR {
+			continue
+		}
+		for _, sp := range gd.Specs {
+			vs := sp.(*ast.ValueSpec)
+			if len(vs.Values) != len(vs.Names) {
+				continue
+			}
+			for i, v := range vs.Values {
+				call, ok := v.(*ast.CallExpr)
+				if !ok || len(call.Args) == 0 {
+					continue
+				}
+				fn, ok := call.Fun.(*ast.Ident)
+				if !ok || fn.Name != "make" {
+					continue
+				}
+				if _, isChan := call.Args[0].(*ast.ChanType); !isChan || vs.Names[i].Name == "_" {
+					continue
+				}
+				reinit = append(reinit, &ast.AssignStmt{Lhs: []ast.Expr{ast.NewIdent(vs.Names[i].Name)}, Tok: token.ASSIGN, Rhs: []ast.Expr{call}})
+				st.globalChans++
+			}
+		}
+	}
+	if len(reinit) > 0 {
+		f.Decls = append(f.Decls, &ast.FuncDecl{
+			Name: ast.NewIdent("init"),
+			Type: &ast.FuncType{Params: &ast.FieldList{}},
+			Body: &ast.BlockStmt{List: []ast.Stmt{&ast.ExprStmt{X: &ast.CallExpr{
+				Fun:  &ast.SelectorExpr{X: simrtIdent(), Sel: ast.NewIdent("RegisterReinit")},
+				Args: []ast.Expr{&ast.FuncLit{Type: &ast.FuncType{Params: &ast.FieldList{}}, Body: &ast.BlockStmt{List: reinit}}},
+			}}}},
+		})
+		changed = true
+	}
 
 	if !changed {
 		return
